@@ -29,6 +29,7 @@ package main
 import (
 	"errors"
 	"fmt"
+	"os"
 	"regexp"
 	"runtime"
 	"strconv"
@@ -140,11 +141,21 @@ type H struct {
 
 func newH() *H { return &H{byScope: map[app.Scope]*node{}, probe: map[int]bool{}} }
 
+// baseTimeout is how long "what must happen" is awaited: 10 s, or SCOPE_TIMEOUT_MS (used by the check
+// only while minimising a history that already failed under the generous timeout).
+var baseTimeout = func() time.Duration {
+	if v, err := strconv.Atoi(os.Getenv("SCOPE_TIMEOUT_MS")); err == nil && v > 0 {
+		return time.Duration(v) * time.Millisecond
+	}
+	return 10 * time.Second
+}()
+
+// after the first timeout of a process (already a reportable failure) the later ones are kept short
 func (h *H) timeout() time.Duration {
 	if h.timeouts > 0 {
 		return 300 * time.Millisecond
 	}
-	return 10 * time.Second
+	return baseTimeout
 }
 
 func (h *H) anomaly(s string) {
@@ -540,11 +551,18 @@ func (h *H) settle() {
 	h.sampleEarly()
 }
 
+func (h *H) cleanupWait() time.Duration {
+	if h.timeouts > 0 {
+		return 20 * time.Millisecond
+	}
+	return time.Second
+}
+
 // cleanup ends a history: releases blocked Close calls and lets the watchers exit.
 func (h *H) cleanup() {
 	for i := len(h.nodes) - 1; i >= 0; i-- {
 		n := h.nodes[i]
-		if n.started && !n.returned {
+		if n.started && !n.returned && !n.hung {
 			for n.wgm > 0 {
 				hx.Guard(func() { n.scp.DoneTask() })
 				n.wgm--
@@ -555,7 +573,7 @@ func (h *H) cleanup() {
 				if n.registered && n.parent != nil {
 					n.parent.wgm--
 				}
-			case <-time.After(time.Second):
+			case <-time.After(h.cleanupWait()):
 			}
 		}
 	}
